@@ -17,6 +17,16 @@ LEGAL_INTENTS = ['attach_root', 'attach_under', 'move_in_wbs', 'reorder', 'link'
 def make_universe(rng):
     n = rng.randint(5, 12)
     alpha = rng.choice([max(3, n // 2), n, n, 2 * n, 3 * n])
+    # ids: mostly small ints; sometimes strings, sometimes ints and look-alike strings mixed (1 vs '1'), 0 and negatives
+    style = rng.choice(['int', 'int', 'int', 'str', 'mixed', 'zero'])
+    if style == 'int':
+        idpool = list(range(1, alpha + 3))
+    elif style == 'str':
+        idpool = [chr(ord('a') + k) for k in range(alpha + 2)]
+    elif style == 'mixed':
+        idpool = [x for k in range(1, alpha + 2) for x in (k, str(k))]
+    else:
+        idpool = list(range(-1, alpha + 2))
     tasks = []
     for i in range(n):
         kw = {'name': rng.choice([f'N{i}', f'N{i}', f'N{i % 3}', 'same'])}
@@ -38,7 +48,7 @@ def make_universe(rng):
             kw['prio'] = rng.randint(0, 3)
         if rng.random() < 0.2:
             kw['note'] = None
-        tasks.append({'name': f't{i}', 'id': rng.randint(1, alpha), 'kw': kw})
+        tasks.append({'name': f't{i}', 'id': idpool[rng.randrange(alpha)], 'kw': kw})
     wbs = []
     for i in range(rng.randint(1, 3)):
         kw = {}
@@ -47,7 +57,7 @@ def make_universe(rng):
         if rng.random() < 0.3:
             kw['owner'] = rng.choice(['ann', 'bob'])
         wbs.append({'name': f'w{i}', 'kw': kw})
-    return {'tasks': tasks, 'wbs': wbs, 'alpha': alpha}
+    return {'tasks': tasks, 'wbs': wbs, 'alpha': alpha, 'idpool': idpool}
 
 
 def make_config(rng):
@@ -232,7 +242,7 @@ class Gen:
         if not c:
             return None
         on, what, lst = c
-        form = self.r.choice(['move', 'move', 'sort', 'reorder', 'insert_member', 'move_multi'])
+        form = self.r.choice(['move', 'move', 'sort', 'reorder', 'insert_member', 'move_multi', 'sort_partial'])
         if form == 'move' and len(lst) >= 2:
             t, a = self.r.sample(lst, 2)
             return {'op': 'l_move', 'via': self.via(on, what), 'arg': self.arg([t]),
@@ -244,6 +254,11 @@ class Gen:
                     self.r.choice(['before', 'after']): sel[k]}
         if form == 'sort':
             key = self.r.choice(['id', 'id', 'name', ['name', 'id'], 'milestone'])
+            return {'op': 'l_sort', 'via': self.via(on, what), 'key': key, 'reverse': self.r.random() < 0.4}
+        if form == 'sort_partial':
+            # key whose values are comparable for some children only (None next to numbers / strings): the call
+            # raises in the middle of the comparison phase
+            key = self.r.choice(['estimate', 'spent', 'resource', 'start', 'min_start', ['estimate'], 'note', 'prio'])
             return {'op': 'l_sort', 'via': self.via(on, what), 'key': key, 'reverse': self.r.random() < 0.4}
         if form == 'reorder':
             k = self.r.randint(0, len(lst))
@@ -469,7 +484,7 @@ class Gen:
             return {'op': 'new_wbs', 'as': f'nw{self.nnew}', 'arg': self.arg(items, False), 'kw': {'title': f'NW{self.nnew}'}}
         name = f'n{self.nnew}'
         kw = {'name': name.upper()}
-        tid = self.r.randint(1, self.u['alpha'] + 2)
+        tid = self.r.choice(self.u.get('idpool') or list(range(1, self.u['alpha'] + 3)))
         r = self.r.random()
         if r < 0.4:
             p = self.pick(self.names)
@@ -490,7 +505,7 @@ class Gen:
         w = self.pick(self.wn)
         form = self.r.choice(['getitem', 'tasks', 'critical_path', 'str', 'all'])
         if form == 'getitem':
-            return {'op': 'observe', 'what': 'getitem', 'w': w, 'id': self.r.randint(0, self.u['alpha'] + 1)}
+            return {'op': 'observe', 'what': 'getitem', 'w': w, 'id': self.r.choice((self.u.get('idpool') or [1, 2, 3]) + [0, 'zz'])}
         if form == 'all':
             return {'op': 'observe', 'what': 'all', 't': self.pick(self.names)}
         if form == 'str':
@@ -673,7 +688,7 @@ class Gen:
     def f_bad_value(self):
         t = self.pick(self.names)
         c = self.list_owner()
-        form = self.r.choice(['none_append', 'none_parent_list', 'int', 'str', 'obj', 'repeat', 'none_item', 'reorder_bad', 'sort_bad', 'wremove_none'])
+        form = self.r.choice(['none_append', 'none_parent_list', 'int', 'str', 'obj', 'repeat', 'repeat_replace', 'repeat_replace', 'none_item', 'reorder_bad', 'sort_bad', 'wremove_none'])
         if form == 'none_append':
             what = self.r.choice(['children', 'predecessors', 'successors'])
             return {'op': self.r.choice(['l_append', 'l_remove']), 'via': self.via(t, what), 't': None}
@@ -687,6 +702,12 @@ class Gen:
             p = self.pick([p for p in self.names if self.can_link(t, p)])
             if p:
                 return {'op': 'set_preds', 't': t, 'arg': {'k': 'list', 'items': [p, p]}}
+        if form == 'repeat_replace' and c and len(c[2]) >= 2:
+            # same length as the current list, one child named twice, another one left out
+            lst = list(c[2])
+            i, j = self.r.sample(range(len(lst)), 2)
+            lst[j] = lst[i]
+            return {'op': 'set_children', 'on': c[0], 'arg': {'k': 'list', 'items': lst}}
         if form == 'none_item':
             x = self.pick([x for x in self.detached_roots if x != t and self.can_adopt(x, t)])
             return {'op': 'set_children', 'on': t, 'arg': {'k': 'list', 'items': self.T[t]['children'] + [None] + ([x] if x else [])}}
